@@ -128,11 +128,16 @@ func (w *sweep) waitTorn(i int) bool {
 	if c.nc == nil {
 		return false
 	}
-	limit := 2 * time.Second
+	limit := 10 * time.Second
 	if c.busy {
 		return false
 	}
 	if w.muHeld && i == w.cur {
+		// the untrack callback will block behind the onAccept mutex: wait (without a timing assumption) until
+		// the poller has closed the connection, then only briefly for a teardown that is not expected to finish
+		for dl := time.Now().Add(10 * time.Second); c.nc.IsActive() && time.Now().Before(dl); {
+			time.Sleep(200 * time.Microsecond)
+		}
 		limit = 40 * time.Millisecond
 	}
 	dl := time.Now().Add(limit)
@@ -150,7 +155,7 @@ func (w *sweep) waitEntered(i int) bool {
 	select {
 	case <-c.entered:
 		return true
-	case <-time.After(2 * time.Second):
+	case <-time.After(10 * time.Second):
 		return false
 	}
 }
@@ -170,8 +175,8 @@ func (w *sweep) settlePending() {
 				}
 			}
 		}
-		if c.injected && !w.logCb && atomic.LoadUint32(&c.nc.closed) == 0 {
-			w.waitTorn(i)
+		if (c.injected || !c.nc.IsActive()) && !w.logCb && atomic.LoadUint32(&c.nc.closed) == 0 {
+			w.waitTorn(i) // a closed connection whose handler is not held is torn down: wait for it, however long it takes
 		}
 	}
 }
@@ -206,7 +211,7 @@ func (w *sweep) doInject(i int, what string) {
 		w.log(fmt.Sprintf("busy %d", i))
 		c.cli.Close()
 		if c.nc != nil { // closed by the poller while the handler runs: wait for IsActive to turn false
-			dl := time.Now().Add(2 * time.Second)
+			dl := time.Now().Add(10 * time.Second)
 			for c.nc.IsActive() && time.Now().Before(dl) {
 				time.Sleep(200 * time.Microsecond)
 			}
@@ -242,7 +247,7 @@ func (w *sweep) runClose(d time.Duration) {
 	select {
 	case r := <-done:
 		w.shErr = r
-	case <-time.After(3 * time.Second):
+	case <-time.After(15 * time.Second):
 		w.shErr = "hang"
 	}
 	w.closeRun = false
@@ -301,7 +306,7 @@ func (w *sweep) acceptOne(i int) {
 	w.conns = append(w.conns, c)
 	prev := w.cur
 	w.cur = i
-	dl := time.Now().Add(2 * time.Second)
+	dl := time.Now().Add(10 * time.Second)
 	for !c.started && time.Now().Before(dl) {
 		func() {
 			defer func() {
